@@ -30,7 +30,7 @@ CLAIMS = {
 }
 
 # properties whose check is complete enough to be registered (others are listed as pending)
-READY = {"C11", "C14", "C17", "C18"}
+READY = {"C01", "C03", "C04", "C06", "C10", "C11", "C12", "C13", "C14", "C15", "C16", "C17", "C18", "C20"}
 
 NOT_APPLICABLE = {
     "C02": "end-to-end over Endpoint::connect / IncomingSession (quinn, tokio, DNS) and the url crate's parser; the only candidate kernel, the whole-function QPACK header pipeline over strings, exhausted 20 GB at 6 symbolic bytes; its kernels are decided under C14/C16, admission and status under C18 (DESIGN §8)",
@@ -94,11 +94,11 @@ def main():
             "add_only": True,
         },
         "engines": [
-            {"name": "E1", "path": "kani/proto, kani/wt", "serves_properties": props,
+            {"name": "E1", "path": "kani/proto, kani/wt", "serves_properties": sorted(set(p for h in reg if h.crate in ("proto", "wt") for p in h.props)),
              "kind_free_text": "Kani harness crates with path dependencies on /repo; private kernels reached through cfg(wtransport_verif) re-exports"},
-            {"name": "E2", "path": "kani/m*, models/", "serves_properties": [],
+            {"name": "E2", "path": "kani/mproto, kani/mdrv, kani/mx509, kani/mquic, models/", "serves_properties": sorted(set(p for h in reg if h.crate.startswith("m") for p in h.props)),
              "kind_free_text": "mirror crates generated at run time: real /repo source files re-hosted (#[path]/sliced) against environment models"},
-            {"name": "E3", "path": "tools/e3.py", "serves_properties": [],
+            {"name": "E3", "path": "tools/e3.py, kani/e3native", "serves_properties": sorted(set(p for h in reg if h.crate == "e3" for p in h.props)),
              "kind_free_text": "nightly MIR dump -> SMT-LIB2 for loop-free integer kernels; cvc5 + z3"},
         ],
         "checks": checks,
